@@ -1189,7 +1189,7 @@ def m_opt_combinators(m, callee, a):
     raise Unsupported(callee)
 
 
-@model(re.compile(r'^<.* as Iterator>::(map|filter|rev|skip|take|all|any|count|position|for_each|sum|product|last|nth|peekable|cloned|copied|zip|min|max|find|skip_while|take_while|filter_map|flat_map|chain|step_by)$'))
+@model(re.compile(r'^<.* as Iterator>::(map|filter|rev|skip|take|all|any|count|position|for_each|sum|product|last|nth|peekable|cloned|copied|zip|min|max|find|skip_while|take_while|filter_map|flat_map|flatten|chain|step_by)$'))
 def m_iter_adapters(m, callee, a):
     key = canon_last(callee)
     it = a[0]
@@ -1211,6 +1211,33 @@ def m_iter_adapters(m, callee, a):
             if r.vidx == 1: out.append(Cell(r.fields[0].v))
         return IterV('own', out)
     if key == 'rev': return IterV('own', [Cell(x) for x in drain()[::-1]])
+    if key == 'flat_map':
+        out = []
+        for x in drain():
+            out.extend(Cell(y) for y in _drain(m, call_closure(m, a[1], [x])))
+        return IterV('own', out)
+    if key == 'flatten':
+        out = []
+        for x in drain(): out.extend(Cell(y) for y in _drain(m, x))
+        return IterV('own', out)
+    if key == 'skip_while':
+        xs = drain(); i = 0
+        while i < len(xs) and m.branch(call_closure(m, a[1], [Ptr(Cell(xs[i]))])): i += 1
+        return IterV('own', [Cell(x) for x in xs[i:]])
+    if key == 'take_while':
+        xs = drain(); i = 0
+        while i < len(xs) and m.branch(call_closure(m, a[1], [Ptr(Cell(xs[i]))])): i += 1
+        return IterV('own', [Cell(x) for x in xs[:i]])
+    if key == 'step_by':
+        n = m.concretize(a[1]); return IterV('own', [Cell(x) for x in drain()[::n]])
+    if key in ('min', 'max'):
+        xs = drain()
+        if not xs: return none()
+        best = xs[0]
+        for x in xs[1:]:
+            lt = m.branch(m.binop('Lt', deref_char(x), deref_char(best)))
+            if (key == 'min' and lt) or (key == 'max' and not lt): best = x
+        return some(best)
     if key == 'skip':
         n = m.concretize(a[1]); return IterV('own', [Cell(x) for x in drain()[n:]])
     if key == 'take':
